@@ -144,9 +144,19 @@ type FsOp struct {
 	Path   string `json:"path"`
 	Path2  string `json:"path2,omitempty"`
 	Data   string `json:"data,omitempty"`
+	Big    int    `json:"big,omitempty"` // > 0: the content is Data+"|" repeated up to this many bytes (sizes past every threshold)
 	Chunks []int  `json:"chunks,omitempty"` // Writer: chunk lengths (0 allowed); Reader: buffer sizes
 	View   int    `json:"view,omitempty"`   // index into the views created so far (0 = root)
 	Ref    int    `json:"ref,omitempty"`    // pseudo-operations: which earlier result/buffer
+}
+
+// Content is the byte content a write operation stores.
+func (o FsOp) Content() []byte {
+	if o.Big <= 0 {
+		return []byte(o.Data)
+	}
+	unit := o.Data + "|"
+	return []byte(strings.Repeat(unit, o.Big/len(unit)+1)[:o.Big])
 }
 
 func (o FsOp) String() string {
@@ -156,6 +166,9 @@ func (o FsOp) String() string {
 	}
 	if o.Data != "" || o.Kind == "WriteFile" || o.Kind == "Writer" {
 		s += fmt.Sprintf(",%q", o.Data)
+		if o.Big > 0 {
+			s += fmt.Sprintf("x%dB", o.Big)
+		}
 	}
 	return s + ")"
 }
@@ -224,7 +237,7 @@ func (m *ModelTree) Expectation(prefix []string, op FsOp) Expect {
 		}
 		return Expect{Outcome: MustOK, apply: func() { m.mkdirs(segs) }}
 	case "WriteFile", "Writer":
-		data := []byte(op.Data)
+		data := op.Content()
 		if len(segs) == 0 {
 			return Expect{Outcome: MustFail}
 		}
@@ -359,14 +372,14 @@ func RunFsOp(fs filesystem.Filespace, op FsOp) (r FsResult) {
 	case "MkdirAll":
 		r.Err = fs.MkdirAll(op.Path, filesystem.DefaultUnixDirMode)
 	case "WriteFile":
-		r.Err = fs.WriteFile(op.Path, []byte(op.Data), filesystem.DefaultUnixFileMode)
+		r.Err = fs.WriteFile(op.Path, op.Content(), filesystem.DefaultUnixFileMode)
 	case "Writer":
 		var w filesystem.Writer
 		w, r.Err = fs.Writer(op.Path)
 		if r.Err != nil {
 			return
 		}
-		r.Err = writeChunked(w, []byte(op.Data), op.Chunks)
+		r.Err = writeChunked(w, op.Content(), op.Chunks)
 		if cerr := w.Close(); r.Err == nil {
 			r.Err = cerr
 		}
